@@ -18,7 +18,7 @@ META = {
                    "target with reset=false and reset with true, the two loops perform the same checks; the server side "
                    "names the source's state in CacheResponse/EndOfData (C08) and builds payload PDUs only through the version filter; version gating tables (payload kinds per "
                    "version, End-of-Data layout per version, both check_version functions) and the flags↔action mapping are "
-                   "computed by abstract interpretation and compared with the RFC tables.",
+                   "computed by abstract interpretation and compared with the RFC tables; the server writes the PDU of every item the source yields before pulling the next item or ending the response (order preserved).",
     "not_decided": ["equality of the applied update sequence with the source's set for all histories, diffs vs resets, "
                     "notify interleavings", "PayloadTarget/PayloadSource implementations supplied by the user"],
     "trusted_base": ["tokio I/O", "user-supplied PayloadTarget / PayloadSource honour their documented contracts"],
